@@ -118,35 +118,41 @@ structure WResult where
   c        : Cbuf
   src      : Src
 
+/-- "Attempt to grow dst cbuf if necessary": returns the buffer and `nfree` as the C code computes it -/
+def maybeGrow (c0 : Cbuf) (len0 : Nat) : Cbuf × Nat :=
+  let nfree0 := c0.size - c0.used
+  if len0 > nfree0 ∧ c0.size < c0.maxsize then
+    let (c1, g) := grow c0 (len0 - nfree0)
+    (c1, nfree0 + g)
+  else (c0, nfree0)
+
+/-- "Compute number of bytes to write to dst cbuf": `none` = ENOSPC -/
+def effLen (c : Cbuf) (len0 : Nat) : Option Nat :=
+  match c.mode with
+  | .noDrop => let l := min len0 (c.size - c.used); if l = 0 then none else some l
+  | .wrapOnce => some (min len0 c.size)
+  | .wrapMany => some len0
+
+/-- "Update dst cbuf metadata" after `n > 0` bytes were stored ending before cell `iDst` -/
+def commit (c : Cbuf) (nfree : Nat) (d : Array UInt8) (iDst n : Nat) : Cbuf :=
+  let nrepl := (c.iOut + (c.size + 1) - c.iRep) % (c.size + 1)
+  let used' := min (c.used + n) c.size
+  let wrap := decide (n + nrepl > nfree)            -- n > nfree - nrepl  (C ints)
+  let iRep' := if wrap then (iDst + 1) % (c.size + 1) else c.iRep
+  let iOut' := if n > nfree then iRep' else c.iOut
+  { c with data := d, used := used', iIn := iDst,
+           gotWrap := c.gotWrap || wrap, iRep := iRep', iOut := iOut' }
+
 /-- `cbuf_writer` (len > 0). -/
 def writer (c0 : Cbuf) (len0 : Nat) (src : Src) : WResult :=
-  let nfree0 := c0.size - c0.used
-  let (c, nfree) :=
-    if len0 > nfree0 ∧ c0.size < c0.maxsize then
-      let (c1, g) := grow c0 (len0 - nfree0)
-      (c1, nfree0 + g)
-    else (c0, nfree0)
-  let lenOpt : Option Nat :=
-    match c.mode with
-    | .noDrop => let l := min len0 (c.size - c.used); if l = 0 then none else some l
-    | .wrapOnce => some (min len0 c.size)
-    | .wrapMany => some len0
-  match lenOpt with
+  let (c, nfree) := maybeGrow c0 len0
+  match effLen c len0 with
   | none => { ret := -1, ndropped := 0, c := c, src := src }
   | some len =>
     let (d, iDst, nleft, src', m) := writerLoop c.size (len + 1) c.data c.iIn len src 0
     let n := len - nleft
     if n = 0 then { ret := m, ndropped := 0, c := { c with data := d }, src := src' }
-    else
-      let nrepl := (c.iOut + (c.size + 1) - c.iRep) % (c.size + 1)
-      let used' := min (c.used + n) c.size
-      let wrap := n + nrepl > nfree            -- n > nfree - nrepl  (ints)
-      let iRep' := if wrap then (iDst + 1) % (c.size + 1) else c.iRep
-      let iOut' := if n > nfree then iRep' else c.iOut
-      { ret := n, ndropped := n - nfree,
-        c := { c with data := d, used := used', iIn := iDst,
-                      gotWrap := c.gotWrap || wrap, iRep := iRep', iOut := iOut' },
-        src := src' }
+    else { ret := n, ndropped := n - nfree, c := commit c nfree d iDst n, src := src' }
 
 /-- `cbuf_dropper` (0 < len ≤ used); `cbuf_shrink` is a no-op in this code base. -/
 def dropper (c : Cbuf) (len : Nat) : Cbuf :=
@@ -253,6 +259,13 @@ def dropLine (c : Cbuf) (len lines : Int) : Int × Cbuf :=
 
 def linesUsed (c : Cbuf) : Nat := (findUnreadLine c c.size (-1)).2
 
+/-- `cbuf_write_line`: "Determine if src will fit (or be made to fit) in dst cbuf" -/
+def lineRefused (c : Cbuf) (len : Nat) : Bool :=
+  match c.mode with
+  | .noDrop => decide (len > c.size - c.used)
+  | .wrapOnce => decide (len > c.size)
+  | .wrapMany => false
+
 /-- `cbuf_write_line` on a NUL-free string. -/
 def writeLine (c0 : Cbuf) (s : List UInt8) : Int × Nat × Cbuf :=
   let ncopy0 := s.length
@@ -260,12 +273,7 @@ def writeLine (c0 : Cbuf) (s : List UInt8) : Int × Nat × Cbuf :=
   let len := if needNl then s.length + 1 else s.length
   let nfree0 := c0.size - c0.used
   let c := if len > nfree0 ∧ c0.size < c0.maxsize then (grow c0 (len - nfree0)).1 else c0
-  let refused : Bool :=
-    match c.mode with
-    | .noDrop => decide (len > c.size - c.used)
-    | .wrapOnce => decide (len > c.size)
-    | .wrapMany => false
-  if refused then (-1, 0, c)
+  if lineRefused c len then (-1, 0, c)
   else
     let ndrop0 := if len > c.size then len - c.size else 0
     let ncopy := ncopy0 - ndrop0
